@@ -23,7 +23,8 @@ RULE = ("Hypothesis generates a model (N<=4 quick, <=5 thorough), a parallel con
         "compared on the reduction root (rank 0) and, for the split container path, on every rank.  A run that exceeds max(60 s, 100x the "
         "single-rank time) three times in a row is a hang.  Before the random search a sweep runs the split container computation of a fixed "
         "two-site model (36 non-vanishing stored components) on 17..40 ranks for the (ranks, components) pairs listed in "
-        "coverage.exhaustive_subspace.  Non-trivial: P>=2 and (P does not divide the number of jobs/components, or "
+        "coverage.exhaustive_subspace, and Hubbard chains of 6 and 7 sites (blocks up to 1225x1225) are diagonalised on 2-16 ranks: every rank "
+        "must hold H V = V E, V^+ V = 1 and sum(E) = tr H for every block, identically on all ranks.  Non-trivial: P>=2 and (P does not divide the number of jobs/components, or "
         "P>components, or components>P, or T>=2 with >=50 frequencies).")
 ASSUMPTIONS = ["tables of the unsplit path / stand-alone compute are checked on rank 0 only (boost::mpi::reduce semantics: other ranks hold no result)",
                "after compute(clear=true) on-demand evaluation is not available by contract and is not requested",
@@ -105,6 +106,8 @@ def scenario(case):
 
 
 def execute(case, ctx):
+    if "big" in case:
+        return big_execute(case, ctx)
     mdl = case["model"]
     P, T = case["P"], case["T"]
     classes = model_classes(mdl) + ["P=%d" % P if P in (1, 16) else "P>=2", "T>=2" if T >= 2 else "T=1", "split" if case["split"] else "nosplit"]
@@ -257,6 +260,61 @@ def sweep_pairs(tier):
     return [(P, K) for P in range(17, pmax + 1) for K in range(1, min(36, P + 2) + 1)]
 
 
+def big_model(nsites, cplx):
+    labs = ["s%d" % k for k in range(nsites)]
+    terms = [gen.P("coulombS", l, [4.0 - 0.3 * k, 0.0], [-2.0 + 0.1 * k, 0.0]) for k, l in enumerate(labs)]
+    terms += [gen.P("hop3", labs[k], labs[k + 1], [1.0 - 0.05 * k, 0.25 if cplx else 0.0]) for k in range(nsites - 1)]
+    return {"cplx": cplx, "sites": [[l, 1, 2] for l in labs], "terms": terms, "order_spins": 0, "symm": {"mode": "default"}, "beta": 5.0}
+
+
+def big_cases(tier):
+    # (sites, complex build, ranks): 12 modes -> blocks up to 400x400, 14 modes -> blocks up to 1225x1225 (1.5e6 matrix elements)
+    if tier == "quick":
+        return [(6, True, 3), (7, False, 2)]
+    return [(6, True, 3), (6, False, 16), (7, False, 2), (7, False, 3), (7, True, 5)]
+
+
+def big_execute(case, ctx):
+    """Hamiltonian::prepare/compute of a model with large blocks under mpiexec: on every rank every block must satisfy H V = V E,
+    V^+ V = 1, sum(E) = tr H with the block matrix that rank held after prepare(); all ranks must report identical numbers"""
+    nsites, cplx, P = case["big"]
+    mdl = big_model(nsites, cplx)
+    flavour = "complex" if cplx else "real"
+    sc = M.pipeline(mdl, upto="hprepare"); sc.add("hsave"); sc.add("hcompute", "hcompute"); sc.add("hcheck", "hcheck")
+    classes = ["large-blocks", "P>=2"]
+    answers, status, stderr = run_mpi(flavour, sc, P, threads=1, timeout=1500, wd=ctx.wd)
+
+    def fail(what, sig):
+        return Result("fail", classes, True, {"what": what, "P": P, "flavour": flavour, "scenario": sc.text()[:3000], "stderr": stderr[-2500:]}, sig)
+    if status.startswith("timeout"):
+        return Result("ok", classes + ["timeout-inconclusive"], False)
+    if status != "ok":
+        return fail("mpiexec: %s" % status, "mpi-exit")
+    first = None
+    for r, a in enumerate(answers):
+        hc = a.get("hcheck")
+        if hc is None or "exc" in hc or "blocks" not in hc:
+            return fail("rank %d: no eigen-system report (%s)" % (r, (hc or {}).get("exc")), "big-exc")
+        mins = []
+        for b, (dim, resid, orth, tr, se, se2, mn) in enumerate(hc["blocks"]):
+            scale = max(1.0, math.sqrt(se2))
+            if not (resid >= 0 and resid <= 1e-9 * scale):
+                return fail("rank %d block %d (dimension %d): max |H V - V E| = %r" % (r, b, dim, resid), "big-residual")
+            if not (orth >= 0 and orth <= 1e-9):
+                return fail("rank %d block %d (dimension %d): max |V^+ V - 1| = %r" % (r, b, dim, orth), "big-orthonormality")
+            if not abs(tr - se) <= 1e-9 * scale * max(1, dim):
+                return fail("rank %d block %d (dimension %d): sum of eigenvalues %r, trace of the block %r" % (r, b, dim, se, tr), "big-trace")
+            mins.append(mn)
+        if not abs(hc["ground"] - min(mins)) <= 1e-12 * max(1.0, abs(min(mins))):
+            return fail("rank %d: ground energy %r, minimum over blocks %r" % (r, hc["ground"], min(mins)), "big-ground")
+        dig = json.dumps([hc["blocks"], hc["ground"]])
+        if first is None:
+            first = dig
+        elif dig != first:
+            return fail("rank %d reports another eigen-system than rank 0" % r, "big-ranks-differ")
+    return Result("ok", classes, True)
+
+
 def pre_campaign(tier, seed):
     """rank counts above 16 for the split container computation: every (ranks, stored elements) pair of the sweep, one fixed model whose
     36 stored components are all non-zero, each compared with the single-rank run on every rank"""
@@ -276,14 +334,25 @@ def pre_campaign(tier, seed):
                 hashes.append(M.case_hash(case))
             else:
                 inconclusive += 1
+        nbig = 0
+        for bc in ([] if failures else big_cases(tier)):
+            case = {"big": list(bc)}
+            r = big_execute(case, ctx)
+            n += 1; nbig += 1
+            if r.status == "fail":
+                failures.append({"case": case, "detail": r.detail, "signature": r.signature})
+                break
+            if r.nontrivial:
+                hashes.append(M.case_hash(case))
     finally:
         ctx.close()
     cov = {"exhaustive_subspace": {"exhaustive": tier == "thorough" and not failures and not inconclusive,
                                    "what": "split container computation on 17..40 ranks: " + ("every (ranks P, stored elements K) with K <= min(36, P+2)" if tier == "thorough" else
                                            "the pairs at which the floating-point colour assignment of the ranks is irregular, plus five others") +
                                            "; fixed two-site model without S_z conservation, all stored components non-zero",
-                                   "pairs": n, "inconclusive": inconclusive}}
-    return {"failures": failures[:1], "coverage": cov, "evaluations": n, "nontrivial_hashes": hashes, "classes": {"P>16": n}}
+                                   "pairs": n - nbig, "inconclusive": inconclusive,
+                                   "large_block_models": [{"sites": b[0], "complex": b[1], "ranks": b[2]} for b in big_cases(tier)][:nbig]}}
+    return {"failures": failures[:1], "coverage": cov, "evaluations": n, "nontrivial_hashes": hashes, "classes": {"P>16": n - nbig, "large-blocks": nbig}}
 
 
 def vmax(vals):
